@@ -10,6 +10,12 @@ def run(tier, argv):
     rep = vlib.Report(PROP, tier)
     work = vlib.Work(PROP)
     quick = tier == "quick"
+    # the implementation-shaped leaf discipline of validator/tree.go agrees with the requirement (and the recorded switch still breaks it)
+    r = vlib.tlc(work, "ValTree", "ValTree.cfg", timeout=1200, workers=8)
+    rep.add_tlc(r, "ValTree (Agree: parallel leaves with merging = Acc) over 54 array schemas x 40 documents")
+    rv = vlib.tlc(work, "ValTree", "ValTree.cfg", consts={"DoneLeavesNotMerged": "TRUE"}, allow_violation=True, workers=8, timeout=1200)
+    if not rv.violation:
+        raise vlib.Infra("vacuous: switch DoneLeavesNotMerged no longer violates Agree")
     hbin = vlib.build_harness(work)
     docs, cases, nd, nc = semcommon.generate(work, rep, "GenTypes", "GenTypes.cfg", {"Level": "1" if quick else "2"}, "types")
     s, bad = semcommon.replay(work, hbin, docs, cases, "types")
